@@ -43,6 +43,7 @@ func main() {
 	deadline := flag.Duration("deadline", 0, "wall-clock limit for exploration")
 	tags := flag.String("tags", "gosymx,math_big_pure_go,purego", "build tags for loading")
 	skip := flag.String("skip", "", "comma-separated functions whose calls are skipped (return zero values)")
+	bigw := flag.Int("bigw", 128, "magnitude width of the symbolic math/big.Int model")
 	stopv := flag.Bool("stop-on-violation", false, "stop at the first violation")
 	flag.Parse()
 
@@ -138,6 +139,7 @@ func main() {
 		InitPkgs:      ip,
 		Redirects:     redirects,
 		SkipFuncs:     skipSet(*skip),
+		BigW:          *bigw,
 		Trace:         *trace,
 		StopOnViolate: *stopv,
 	}
